@@ -190,9 +190,10 @@ def pathlibNorm (reWin sepsWin : Bool) (path : List Char) : List Char :=
   | some c => if p.length > 1 && isSep sepsWin c then p.dropLast else p
   | none => p
 
-/-- The regex a `Glob` instance holds: **the Windows one on every host** (`glob.py` 457, 467
-    assign `_RE_WIN_PATHLIB_DOT_NORM` on both branches) — read from a live instance by the
-    translator, `Properties/C16.lean` re-checks `Gen.globInstPathlibNorm` against it. -/
+/-- Which regex a `Glob` instance holds on this host: read from a live instance by the
+    translator.  Since the D16 repair `glob.py` 457, 467 assign `_RE_WIN_PATHLIB_DOT_NORM` only
+    under FORCEWIN (which `_flag_transform` clears on POSIX), so this is `false` here — it was
+    `true` on every host; `Properties/C16.lean` (`norm_regex_pinned`) pins the value. -/
 def codeReWin : Bool := Gen.globInstPathlibNorm == Gen.rRE_WIN_PATHLIB_DOT_NORM
 
 /-- ASCII `str.lower` (names in case-insensitive theorems are ASCII, DESIGN §7) -/
